@@ -13,9 +13,11 @@ CFG = {
             "half sent, request body half sent - completed or dropped during shutdown; a connection arriving "
             "during shutdown), 0-3 wait_for_shutdown() waiters, close() called, shutdown held open by the "
             "in-flight handlers for 150-350 ms, handlers released, close() awaited (60 s deadline), the old "
-            "address probed twice. Fixed part: 13 scenarios per mode (idle server, waiters only, idle "
-            "connections, 1 and 4 in-flight handlers, gone clients, half-sent requests, late connection); seeded "
-            "part: mixed scenarios with 4-64 connections (quick 5 per mode; thorough 145 per mode). The "
+            "address probed twice. Fixed part: 17 scenarios per mode (idle server, waiters only, idle "
+            "connections, 1 and 4 in-flight handlers, gone clients, half-sent requests, late connection; four of "
+            "them repeated with shutdown requested by dropping the server); seeded part: mixed scenarios with "
+            "4-64 connections, one in six via drop (quick 5 per mode; thorough 145 per mode). Handlers whose "
+            "client leaves are released 120 ms after the others, so shutdown has to wait for them alone. The "
             "observation is the global event log (close_called, handler entered/completed/dropped, response "
             "read complete?, client gone, saw EOF, close_returned(result), waiter released(result), "
             "connect-after-close result), judged in Coq: the property clauses evaluated on the log (spec) and "
@@ -44,8 +46,9 @@ CFG = {
         "the model cannot exhibit: tokio's scheduling order, TCP teardown timing, hyper's HTTP/1 state machine "
         "(abstracted to Idle/InRequest/Responding/Closed), the 30 s header-read timeout, HTTP/2, TLS; "
         "GracefulShutdown, waitgroup and Shared are contracts, not models",
-        "shutdown is requested through HttpServer::close(); CloseHandle::drop sends the same signal but keeps "
-        "no-one waiting and is not exercised",
+        "shutdown is requested through HttpServer::close().await, or (via:drop scenarios) by dropping the "
+        "HttpServer (CloseHandle::drop) while awaiting a wait_for_shutdown() future taken beforehand; that "
+        "future's completion is logged as close_returned",
         "liveness (close() returns, waiters are released, staying clients read their response) is judged with "
         "60 s deadlines; nothing is required to happen faster",
     ],
